@@ -269,7 +269,8 @@ func parseHeaderValueBlock(r io.Reader, streamId StreamId) (http.Header, uint32,
 			e = &Error{UnlowercasedHeaderName, streamId}
 			name = strings.ToLower(name)
 		}
-		if h[name] != nil {
+		// h.Add below stores the name in canonical form
+		if h[http.CanonicalHeaderKey(name)] != nil {
 			e = &Error{DuplicateHeaders, streamId}
 		}
 		if err := binary.Read(r, binary.BigEndian, &length); err != nil {
